@@ -136,6 +136,13 @@ func vTimeStr(name string) string {
 		return "not-a-timestamp:" + s
 	}
 	ns := vxI64(n + ".ns")
+	if far, _ := vx.inputs[n+".far"].(bool); far {
+		// an instant outside the int64-nanosecond range: far future or far past, as the saturated value says
+		if ns > 0 {
+			return "2300-01-01T00:00:00Z"
+		}
+		return "1500-01-01T00:00:00Z"
+	}
 	// the same instant in different RFC 3339 spellings (zone offsets, fractional seconds)
 	t := time.Unix(0, ns)
 	if z, known := vx.inputs[n+".z"].(bool); known {
@@ -259,9 +266,19 @@ func vParseNs(s string) int64 {
 	if err != nil {
 		return 0
 	}
+	return vNs(t)
+}
+
+// vNs: nanoseconds since 1970, saturated outside the int64 range (as the model represents such instants)
+func vNs(t time.Time) int64 {
+	switch {
+	case t.Year() > 2261:
+		return 1<<63 - 1
+	case t.Year() < 1678:
+		return -1 << 63
+	}
 	return t.UnixNano()
 }
-func vNs(t time.Time) int64   { return t.UnixNano() }
 func vIsUTC(t time.Time) bool { return t.Location() == time.UTC }
 func vClockReads(name string) int {
 	if c, ok := vx.clocks[name]; ok {
